@@ -307,6 +307,26 @@ def check(chk):
            path=cfg.fmt_path(w, "mpf/modes/tilt/code/tilt.py") if w else None, construct=f.ident, text="tilt ends ball")
     ok = any("'tilt'" in src(c) for c in f.calls() if call_attr(c) == "post")
     chk.ob("DOM-20", "a tilt posts the tilt event", ok, f.where(), construct=f.ident, text="tilt event")
+    # a tilt is ignored while the game says it is already tilted: that flag must not survive a game (the game mode object is reused);
+    # every flag of the game that makes tilt() return early is reset at game start, before anything is awaited
+    early = set()
+    for b in cfg.nodes:
+        if b.kind == "branch" and b.value is True and src(b.ast).startswith("self.machine.game.") and any(
+                isinstance(cfg.nodes[s_].ast, ast.Return) for s_ in cfg.reachable([b.id], include_start=False) if cfg.nodes[s_].kind == "stmt" and
+                cfg.nodes[s_].lineno is not None and cfg.nodes[s_].lineno <= (mark[0].lineno if mark else 10 ** 9)):
+            early.add(src(b.ast)[len("self.machine.game."):])
+    GMF = "mpf/modes/game/code/game.py"
+    run = repo.func(GMF, "Game._run")
+    chk.analysed(run)
+    rcfg = run.cfg()
+    first_await = sorted([n for n in rcfg.nodes if n.kind in ("stmt", "test") and n.has_await()], key=lambda n: n.lineno or 0)
+    for attr in sorted(early):
+        resets = [n for n in rcfg.nodes if n.kind == "stmt" and isinstance(n.ast, ast.Assign) and src(n.ast.targets[0]) == "self." + attr and src(n.ast.value) == "False"]
+        ok = bool(resets) and bool(first_await) and any(rcfg.dominates(n.id, first_await[0].id) for n in resets)
+        chk.ob("DOM-20", "the game flag `%s` that makes a tilt be ignored is cleared when a game starts" % attr, ok, run.where(),
+               detail="a game stopped while tilted would leave the flag set: every tilt of the next game is ignored, the rules stay installed on a tilted machine",
+               construct=run.ident, text="tilt-ignoring flag %s not reset at game start" % attr)
+    chk.ob("DOM-20", "flags that make tilt() return early examined", {"tilted", "ending"} <= early, f.where(), detail=str(sorted(early)), nontrivial=False)
 
 
 def _prio(f):
@@ -348,6 +368,7 @@ def battery():
         # twins
         M("twin: append via call result", FL, "        rule = self.machine.platform_controller.set_pulse_on_hit_and_release_rule(", "        rule = self.machine.platform_controller.set_pulse_on_hit_and_release_rule(  # main", None),
         M("twin: extra disable event", Y, "    disable_events: event_handler|event_handler:ms|ball_will_end, service_mode_entered", "    disable_events: event_handler|event_handler:ms|ball_will_end, service_mode_entered, tilt", None, nth=0),
+        M("tilted flag survives the game", "mpf/modes/game/code/game.py", "        self.tilted = False\n        self.ending = False\n        self.num_players = 0", "        self.ending = False\n        self.num_players = 0", "DOM-20"),
     ]
 
 
